@@ -19,6 +19,7 @@ def tasks(ctx):
           Task("(*audio.noise).tickTimer", "(*audio.noise).tickTimer", keep=KEEP),
           Task("(*audio.square).trigger", "(*audio.square).trigger", keep=KEEP), Task("(*audio.wave).trigger", "(*audio.wave).trigger", keep=KEEP),
           Task("(*audio.noise).trigger", "(*audio.noise).trigger", keep=KEEP),
+          Task(ac.A + "tickTimer", ac.A + "tickTimer", overrides=ac.OV, keep=keep_labels({"ch1", "ch2", "ch3", "ch4", "ok"})),
           LemmaTask("lemma:lfsr-and-period", ac.lfsr_spec_orbit, ["spec lfsr15/lfsr7 (oracle orbit)", "tickTimer (contract-level period lemma)"])]
     return filter_tasks(ts)
 
